@@ -460,12 +460,17 @@ def explore_step(prog, d, tables, N, start, *, partial=False, props=None, is_rel
             t = attempts[-1][0]
             if not (s == t and e == t):
                 res.fail(ex, 'C07', f'partial lexer: span after None is {s}..{e}, expected empty at {t}')
+            lookaround = any(not tb.facts.get('look_set_empty', True) for tb in tables)
+            und = R.undetermined(t)
+            if lookaround:
+                und = s_or(und, R.undetermined(t, back=1))      # the documented one-byte slack
             prove('C07', f'partial lexer returned None at {t} although the next item is already determined',
-                  s_or(simp(ex.len == bvv(t, U)), partial_undetermined(ex, R, t)))
-        if partial and item[0] != 'none':
+                  s_or(simp(ex.len == bvv(t, U)), und))
+        if partial:
             for (t, evs, (kind, ss, ee)) in attempts:
-                prove('C07', f'partial lexer committed {kind} {ss}..{ee} although more input could change it',
-                      s_not(partial_undetermined(ex, R, t)))
+                if kind != 'none':
+                    prove('C07', f'partial lexer committed {kind} {ss}..{ee} although more input could change it',
+                          s_not(R.undetermined(t)))
         # ---- accessors (C04 / C05 / C14 basics)
         try:
             sl = ex.call_root(mod + 'h_slice', [lref])
